@@ -198,8 +198,8 @@ def rsa_cert_tree(host_bits, ca_tree, cert_type=b'ssh-rsa-cert-v01@openssh.com',
     return cert_blob_tree(cert_type, [L(mpint_bytes(65537), 'e'), L(mpint_bytes(n), 'n')], ca_tree, cert_kind)
 
 
-def ed25519_cert_tree(ca_tree, cert_kind=2):
-    return cert_blob_tree(b'ssh-ed25519-cert-v01@openssh.com', [L(b'\x42' * 32, 'pk')], ca_tree, cert_kind)
+def ed25519_cert_tree(ca_tree, cert_kind=2, pk=b'\x42' * 32):
+    return cert_blob_tree(b'ssh-ed25519-cert-v01@openssh.com', [L(pk, 'pk')], ca_tree, cert_kind)
 
 
 def sk_ed25519_blob_tree(pk=b'\x45' * 32, app=b'ssh:'):
@@ -207,8 +207,8 @@ def sk_ed25519_blob_tree(pk=b'\x45' * 32, app=b'ssh:'):
     return S([L(b'sk-ssh-ed25519@openssh.com', 'type'), L(pk, 'pk'), L(app, 'application')], 'sk_ed25519_key')
 
 
-def sk_ed25519_cert_tree(ca_tree, cert_kind=2, app=b'ssh:'):
-    return cert_blob_tree(b'sk-ssh-ed25519-cert-v01@openssh.com', [L(b'\x45' * 32, 'pk'), L(app, 'application')], ca_tree, cert_kind)
+def sk_ed25519_cert_tree(ca_tree, cert_kind=2, app=b'ssh:', pk=b'\x45' * 32):
+    return cert_blob_tree(b'sk-ssh-ed25519-cert-v01@openssh.com', [L(pk, 'pk'), L(app, 'application')], ca_tree, cert_kind)
 
 
 def kexdh_reply_tree(hostkey_tree, msg=MSG_KEXDH_REPLY, f=b'\x07' * 32, sig_type=b'ssh-ed25519'):
